@@ -13,7 +13,7 @@ RULE = (
     "gen: one interval tier built as a sequence of pieces (labelled interval | empty-labelled interval | gap) whose lengths are "
     "multiples {0.01,0.5,0.9,1.1,2,5,1e3,...} of the threshold (so slivers of 1e-10..9e-9 around the 1e-8 default occur at the "
     "start, in the middle, at the end and in chains), offset 0/0.5/1/3.7, plus a point tier; x minimumIntervalLength in {None, "
-    "1e-8 (default), 0.001, 0.06} x min/max overrides below / equal to / above the data span (and inside it: must raise) x 4 "
+    "1e-8 (default), 0.001, 0.06, and the dyadic 0.0625 / 0.25 with pieces exactly that long} x min/max overrides below / equal to / above the data span (and inside it: must raise) x 4 "
     "formats x includeBlankSpaces. Oracle: the file is decoded with the independent reader; with theta=None the written tier "
     "is exactly the partition P induced by entries and gaps; with theta given every written interval is a union of consecutive "
     "pieces of P containing exactly one piece >= theta whose label it carries, all such pieces appear in order and nothing "
@@ -21,11 +21,11 @@ RULE = (
     "without blank filling entries are verbatim. Non-trivial: >=1 sub-threshold piece next to a long piece, or an override."
 )
 ASSUMPTIONS = [
-    "cases where a piece length is within 0.1% of the threshold, or where no piece reaches the threshold, are skipped and counted "
+    "cases where the float length end-start of a piece and its exact rational length disagree about reaching the threshold, or where no piece reaches it, are skipped and counted "
     "(the statement's demands are rounding-dependent / contradictory there)",
     "a sliver may be absorbed into either neighbour",
 ]
-REQUIRED_CLASSES = ["slivers:sliver_first", "slivers:sliver_middle", "slivers:sliver_last", "slivers:sliver_chain",
+REQUIRED_CLASSES = ["slivers:piece_exactly_theta", "slivers:sliver_first", "slivers:sliver_middle", "slivers:sliver_last", "slivers:sliver_chain",
                     "slivers:override_ok", "slivers:override_rejected", "slivers:theta_none"]
 
 
@@ -43,15 +43,32 @@ def pieces_of(entries, lo, hi):
     return out
 
 
+def _same_entries(got, want):
+    """Equal up to the integer rounding of numbers that C01 allows."""
+    if len(got) != len(want):
+        return False
+    for g, w in zip(got, want):
+        if g[-1] != w[-1] or len(g) != len(w) or not all(iomodel.num_rel(b, a) for a, b in zip(g[:-1], w[:-1])):
+            return False
+    return True
+
+
 def check_absorption(got_entries, P_, theta, what):
     """got_entries: decoded [[s,e,l]] of one interval tier."""
     bounds = [P_[0][0]] + [p[1] for p in P_]
-    idx = {b: i for i, b in enumerate(bounds)}
+
+    def find(x):
+        # a written number may be the allowed integer rounding of a boundary (C01)
+        for i, b in enumerate(bounds):
+            if iomodel.num_rel(b, x):
+                return i
+        return None
+
     pos = 0  # index into P_
     for s, e, l in got_entries:
-        if s not in idx or e not in idx:
+        i, j = find(s), find(e)
+        if i is None or j is None:
             raise Violation("boundary-invented", f"{what}: written interval {[s, e, l]} has a boundary that is no entry/gap boundary {bounds}")
-        i, j = idx[s], idx[e]
         if i != pos or j <= i:
             raise Violation("not-a-partition", f"{what}: written intervals {got_entries} do not tile the span piecewise (at {[s, e, l]})")
         members = P_[i:j]
@@ -90,8 +107,14 @@ def run_case(case):
     P_ = pieces_of(it["entries"], lo, hi) if not outside and lo < hi else []
     if eff is not None and P_:
         lens = [b - a for a, b, _ in P_]
-        if any(abs(x - eff) <= 1e-3 * eff for x in lens):
+        from fractions import Fraction as _F
+
+        # a piece is 'at least theta long' by the float difference every implementation computes; only pieces for
+        # which the exact rational length disagrees with that verdict are rounding-dependent and skipped
+        if any((x >= eff) != (_F(b) - _F(a) >= _F(eff)) for x, (a, b, _) in zip(lens, P_)):
             return {"classes": ["skipped_borderline"], "nontrivial": False}
+        if any(x == eff for x in lens):
+            cl.add("piece_exactly_theta")
         if not any(x >= eff for x in lens):
             return {"classes": ["skipped_all_short"], "nontrivial": False}
         short = [x < eff for x in lens]
@@ -145,13 +168,13 @@ def run_case(case):
             # point tier and (without blank filling) interval tier: verbatim
             for gt, st_ in zip(got["tiers"], spec["tiers"]):
                 if st_["type"] == "point" or not blanks:
-                    if [list(e) for e in gt["entries"]] != [list(e) for e in st_["entries"]]:
+                    if not _same_entries(gt["entries"], st_["entries"]):
                         raise Violation("not-verbatim", f"{what}: tier {st_['name']!r} written as {gt['entries']}, entries are {st_['entries']}")
             if blanks:
                 ents = g_it["entries"]
                 if eff is None:
                     want = [[a, b, l or ""] for a, b, l in P_]
-                    if ents != want:
+                    if not _same_entries(ents, want):
                         raise Violation("theta-none-not-exact", f"{what}: written {ents}, expected exactly {want}")
                     if any(not e[0] < e[1] for e in ents):
                         raise Violation("non-positive-interval", f"{what}: {ents}")
@@ -163,9 +186,10 @@ def run_case(case):
 
 @st.composite
 def cases(draw):
-    theta = draw(st.sampled_from([None, "default", "default", 0.001, 0.06]))
+    theta = draw(st.sampled_from([None, "default", "default", 0.001, 0.06, 0.0625, 0.25]))
     unit = 1e-8 if theta in (None, "default") else theta
-    mult = st.sampled_from([0.01, 0.5, 0.9, 1.1, 2.0, 5.0, 1e3, 1e3, 3e6 if unit < 1e-3 else 7.0, 5e7 if unit < 1e-3 else 20.0])
+    mult = st.sampled_from([0.01, 0.5, 0.9, 1.1, 2.0, 5.0, 1e3, 1e3, 3e6 if unit < 1e-3 else 7.0, 5e7 if unit < 1e-3 else 20.0]
+                           + ([1.0, 1.0, 0.5, 2.0] if theta in (0.0625, 0.25) else []))
     n = draw(st.integers(1, 7))
     kinds = draw(st.lists(st.tuples(st.sampled_from(["lab", "lab", "lab", "blank", "gap"]), mult), min_size=n, max_size=n))
     off = draw(st.sampled_from([0.0, 0.0, 0.5, 1.0, 3.7]))
